@@ -15,12 +15,21 @@ def tasks(tier):
         Task('props.bounded_C19:drv_stencils_exact', name='C19/bounded/stencils.exact', tier=tier, nfun=200 if q else 3000, timeout=900),
         Task('props.bounded_C19:drv_stencils_float', name='C19/bounded/stencils.float', tier=tier, nfun=200 if q else 3000, timeout=900),
         Task('props.bounded_C19:drv_chi2', name='C19/bounded/sum_chi2_ppf', tier=tier, ncases=150 if q else 2000, timeout=900),
-        Task('props.bounded_C19:drv_uncert', name='C19/bounded/FIM_GIM.natural', tier=tier, nmodels=30 if q else 300, log=False, timeout=900),
-        Task('props.bounded_C19:drv_uncert', name='C19/bounded/FIM_GIM.log', tier=tier, nmodels=30 if q else 300, log=True, timeout=900),
+        Task('props.bounded_C19:drv_uncert', name='C19/bounded/FIM_GIM.natural', tier=tier, nmodels=30 if q else 150, log=False, timeout=900),
+        Task('props.bounded_C19:drv_uncert', name='C19/bounded/FIM_GIM.log', tier=tier, nmodels=30 if q else 150, log=True, timeout=900),
         Task('props.bounded_C19:drv_tests', name='C19/bounded/LRT_Wald_score', tier=tier, nmodels=40 if q else 400, timeout=900),
         Task('props.bounded_C19:drv_cache', name='C19/bounded/cache-history', tier=tier, nseq=12 if q else 120, timeout=900),
     ]
 
+
+
+def _det(d_):
+    """Driver seeds its rng with hash(name), which is salted per process: re-seed deterministically from VERIF_SEED and the
+    task name so that a failing case can be replayed by re-running the task."""
+    import random, zlib
+    from vf import common
+    d_.rng = random.Random(common.seed() * 7919 + zlib.crc32(d_.name.encode()))
+    return d_
 
 # ------------------------------------------------------------------------------------------ stencils
 def _dyadic(rng, bits, lo, hi):
@@ -29,10 +38,10 @@ def _dyadic(rng, bits, lo, hi):
 
 
 def drv_stencils_exact(tier, nfun):
-    d_ = Driver('C19', 'stencils.exact', bound='%d random quadratics c+g.p+p^T H p/2 in 1-5 parameters with dyadic coefficients, eps in {2^-4..2^-13} (subset of '
+    d_ = _det(Driver('C19', 'stencils.exact', bound='%d random quadratics c+g.p+p^T H p/2 in 1-5 parameters with dyadic coefficients, eps in {2^-4..2^-13} (subset of '
                 '[1e-4,1e-1]), p0 entries dyadic incl. 0, negatives and |p|<1e-6/eps (one-sided branch); the function returns exact Fractions so the only '
                 'round-off is the final division: get_hess == H (rel 4e-15), symmetric, central get_grad == g+Hp, one-sided get_grad == g for linear '
-                'functions, p0 untouched, evaluation points = the documented stencil' % nfun)
+                'functions, p0 untouched, evaluation points = the documented stencil' % nfun))
     import numpy as np
     from fractions import Fraction as Fr
     from dadi import Godambe as G
@@ -107,9 +116,9 @@ def drv_stencils_exact(tier, nfun):
 
 
 def drv_stencils_float(tier, nfun):
-    d_ = Driver('C19', 'stencils.float', bound='%d random float quadratics in 1-5 parameters, eps log-uniform in [1e-4,1e-1] and both end points, p0 in +-[1e-3,1e2] '
+    d_ = _det(Driver('C19', 'stencils.float', bound='%d random float quadratics in 1-5 parameters, eps log-uniform in [1e-4,1e-1] and both end points, p0 in +-[1e-3,1e2] '
                 'incl. exact 0 and |p|<1e-6/eps, float64 function values; |get_hess-H| <= 64*u*F/(h_i*h_j) with F the bound of |f| on the stencil box and h the '
-                'documented steps (round-off bound of an exact stencil); get_grad: <= 16*u*F/h_i on central/linear cases' % nfun)
+                'documented steps (round-off bound of an exact stencil); get_grad: <= 16*u*F/h_i on central/linear cases' % nfun))
     import numpy as np
     from dadi import Godambe as G
     rng = d_.rng
@@ -161,10 +170,10 @@ def drv_stencils_float(tier, nfun):
 
 # ------------------------------------------------------------------------------------------ mixture chi-square
 def drv_chi2(tier, ncases):
-    d_ = Driver('C19', 'sum_chi2_ppf', bound='%d cases: weights of length 1-5 summing to 1 (incl. (0,1), (.5,.5), zero weights), x scalar (python float/int, '
+    d_ = _det(Driver('C19', 'sum_chi2_ppf', bound='%d cases: weights of length 1-5 summing to 1 (incl. (0,1), (.5,.5), zero weights), x scalar (python float/int, '
                 'numpy.float64) or array-like (list, tuple, 1-D and 2-D ndarray), x in {0} U [1e-6,60]; value 1-(w0*[x>0]+sum_d w_d*P(d/2,x/2)) with mpmath '
                 'regularised incomplete gamma, abs tol 1e-12; scalar in -> scalar out, array in -> array of the same shape; weights not summing to 1 -> ValueError'
-                % ncases)
+                % ncases))
     import numpy as np
     import mpmath
     from dadi import Godambe as G
@@ -307,15 +316,21 @@ def _problem(dadi, np, rng, k, n, p_lo=0.3, p_hi=3.0, nboot=20, dyadic=False):
 
 def _relerr(np, got, want):
     got, want = np.asarray(got, dtype=float), np.asarray(want, dtype=float)
-    return float(np.max(np.abs(got - want) / np.maximum(np.abs(want), 1e-300)))
+    both_nan = np.isnan(got) & np.isnan(want)
+    with np.errstate(invalid='ignore'):
+        e = np.where(both_nan, 0.0, np.abs(got - want) / np.maximum(np.abs(want), 1e-300))
+    return float(np.max(e)) if not np.any(np.isnan(e)) else float('inf')
 
 
-def _order2(d_, key, errs, amp, info, fail_key, eps_pair=(1e-2, 2.5e-3)):
+def _order2(d_, key, errs, amp, info, fail_key, eps_pair=(1e-2, 2.5e-3), ro=0.0):
     """errs = relative errors against the closed form at eps_pair.  O(eps^2): e(eps1) <= 4*amp*eps1^2 and the error drops by
-    >= 8 (ideal 16) when eps is divided by 4, down to a round-off floor of 1e-7*amp."""
+    >= 8 (ideal 16) when eps is divided by 4, down to a round-off floor of amp*(1e-7+ro), ro = 256*u*|ll|/(h_min^2*max|H|) being the
+    relative round-off of a second difference of ll with the smallest step in use."""
     e1, e2 = errs
-    floor = 1e-7 * amp
-    ok = e1 <= 4 * amp * eps_pair[0] ** 2 + floor and (e2 <= e1 / 8 + floor)
+    floor = (1e-7 + ro) * amp
+    # the ratio criterion is asymptotic: applied when the coarse error is already small (ill-conditioned problems with a
+    # large amp can sit outside that regime; they are still held to the cap)
+    ok = e1 <= 4 * amp * eps_pair[0] ** 2 + floor and (e2 <= e1 / 8 + floor or (e1 > 0.05 and e2 <= e1 / 3))
     return d_.case(key, bool(ok), dict(info, err_eps1=e1, err_eps2=e2, amp=amp, eps=list(eps_pair)), True, fail_key)
 
 
@@ -323,11 +338,11 @@ NEG_FK = 'negative-parameter-uses-one-sided-O(eps)-stencil'
 
 
 def drv_uncert(tier, nmodels, log):
-    d_ = Driver('C19', 'FIM_GIM.%s' % ('log' if log else 'natural'), bound='%d random linear Poisson models m=B0+sum p_j B_j, k=1-4 parameters, 1-D spectra n=8..20, p0 in '
+    d_ = _det(Driver('C19', 'FIM_GIM.%s' % ('log' if log else 'natural'), bound='%d random linear Poisson models m=B0+sum p_j B_j, k=1-4 parameters, 1-D spectra n=8..20, p0 in '
                 '[0.26,3.4]^k (within 12%% of the generating point), 20 bootstraps, multinom off/on (theta appended), log=%s, boot_theta_adjusts (multinom off), '
                 'eps in {1e-2,2.5e-3}: FIM_uncert, GIM_uncert (+returned H, GIM) against analytic derivatives assembled with numpy.linalg: rel err <= '
-                '4*amp*eps^2 and shrinking >=8x for eps/4 (amp=max(1,cond(H)/10,cond(J)/30)); 10 permutations of the bootstraps: rel 1e-10; cache cleared '
-                'before every call' % (nmodels, log))
+                '4*amp*eps^2 and shrinking >=8x for eps/4 (>=3x when the coarse error exceeds 5%%) down to the round-off floor (amp=max(1,cond(H)/10,cond(J)/30)); 10 permutations of the bootstraps: rel 1e-10; cache cleared '
+                'before every call' % (nmodels, log)))
     import numpy as np
     import dadi
     from dadi import Godambe as G
@@ -358,7 +373,14 @@ def drv_uncert(tier, nmodels, log):
             with np.errstate(invalid='ignore'):
                 wantG = np.sqrt(np.diag(np.linalg.inv(GIM)))
             amp = max(1.0, np.linalg.cond(H) / 10, np.linalg.cond(J) / 30)
-            info = dict(k=k, n=n, p0=p0.tolist(), B=lin.B.tolist(), data=d.tolist(), multinom=multinom, log=log, theta_adjusts=adj, negative_logparam=neg)
+            from scipy.special import gammaln
+            m_q = lin._m(q, multinom)[0]
+            ll_mag = float(np.sum(m_q + np.abs(d * np.log(m_q)) + np.abs(gammaln(d + 1))))
+            x = np.log(q) if log else q
+            hmin = min(EPS[1] if xv * EPS[1] < 1e-6 else EPS[1] * xv for xv in x)
+            ro = 256 * 2.0 ** -53 * ll_mag / (hmin ** 2 * float(np.max(np.abs(H))))
+            info = dict(k=k, n=n, p0=p0.tolist(), B=lin.B.tolist(), B0=lin.B0.tolist(), data=d.tolist(), multinom=multinom, log=log, theta_adjusts=adj,
+                        negative_logparam=neg, roundoff_floor=ro)
             key = (t, k, multinom, log, adj is not None)
 
             def fk(name):
@@ -379,14 +401,14 @@ def drv_uncert(tier, nmodels, log):
                     eGH.append(float(np.max(np.abs(Hd2 - Hd))))
                     if eps == EPS[0]:
                         u_plain = G.FIM_uncert(lin.func, [n], list(p0), data, log=log, multinom=multinom, eps=eps)
-                        d_.case(key + ('return-shapes',), np.shape(u) == (len(q),) and np.array_equal(u_plain, u) and np.shape(ug) == (len(q),), info, True,
+                        d_.case(key + ('return-shapes',), np.shape(u) == (len(q),) and np.array_equal(u_plain, u, equal_nan=True) and np.shape(ug) == (len(q),), info, True,
                                 'FIM-return-shape')
                 if np.all(np.isfinite(wantF)):     # (p0 is not the MLE: the observed information may be indefinite; then only matrices are compared)
-                    _order2(d_, key + ('FIM',), eF, amp, info, fk('FIM_uncert-vs-closed-form'))
-                _order2(d_, key + ('H',), eH, amp, info, fk('hessian-vs-closed-form'))
+                    _order2(d_, key + ('FIM',), eF, amp, info, fk('FIM_uncert-vs-closed-form'), ro=ro)
+                _order2(d_, key + ('H',), eH, amp, info, fk('hessian-vs-closed-form'), ro=ro)
                 if np.all(np.isfinite(wantG)):
-                    _order2(d_, key + ('GIM_uncert',), eG, amp, info, fk('GIM_uncert-vs-closed-form'))
-                _order2(d_, key + ('GIM',), eGIM, amp, info, fk('GIM-matrix-vs-closed-form'))
+                    _order2(d_, key + ('GIM_uncert',), eG, amp, info, fk('GIM_uncert-vs-closed-form'), ro=ro)
+                _order2(d_, key + ('GIM',), eGIM, amp, info, fk('GIM-matrix-vs-closed-form'), ro=ro)
                 d_.case(key + ('H-same-in-FIM-and-GIM',), max(eGH) == 0.0, dict(info, diff=eGH), True, 'H-differs-between-FIM-and-GIM')
                 # bootstrap-order independence
                 G.cache.clear()
@@ -406,10 +428,10 @@ def drv_uncert(tier, nmodels, log):
 
 
 def drv_tests(tier, nmodels):
-    d_ = Driver('C19', 'LRT_Wald_score', bound='%d random linear Poisson models, k=2-4 parameters, every non-empty proper subset of nested indices up to size 2, nested '
+    d_ = _det(Driver('C19', 'LRT_Wald_score', bound='%d random linear Poisson models, k=2-4 parameters, every non-empty proper subset of nested indices up to size 2, nested '
                 'values nonzero (central stencils, O(eps^2)) or exactly 0 (one-sided stencils, O(eps): tolerance 6*amp*eps and shrinking >=3x for eps/4), multinom '
                 'off/on, 20 bootstraps: LRT_adjust=k/tr(J H^-1), Wald (adjusted d^T G d, original d^T H d, full_params of full or nested length), score '
-                '(cU^T J^-1 cU, cU^T H^-1 cU) on the nested blocks of the analytic derivatives; permuted bootstraps: rel 1e-9; cache cleared before every call' % nmodels)
+                '(cU^T J^-1 cU, cU^T H^-1 cU) on the nested blocks of the analytic derivatives; permuted bootstraps: rel 1e-9; cache cleared before every call' % nmodels))
     import numpy as np
     import itertools
     import dadi
@@ -452,7 +474,7 @@ def drv_tests(tier, nmodels):
         m_q, Jm_q, _ = lin._m(q, multinom)
         gpos = np.array([np.mean([(np.abs(Jm_q[:, j]) * (b / m_q + 1)).sum() for b in boots]) for j in nested])
         kappa = max(1.0, float(np.max(gpos / np.abs(cU))) / 20)
-        info = dict(k=k, n=n, p0=p0.tolist(), nested=nested, B=lin.B.tolist(), data=d.tolist(), multinom=multinom, full_params=full.tolist(), zero_nested=zero_nested)
+        info = dict(k=k, n=n, p0=p0.tolist(), nested=nested, B=lin.B.tolist(), B0=lin.B0.tolist(), data=d.tolist(), multinom=multinom, full_params=full.tolist(), zero_nested=zero_nested)
         key = (t, k, tuple(nested), multinom, zero_nested)
 
         def run():
@@ -489,7 +511,7 @@ def drv_tests(tier, nmodels):
                 if zero_nested:
                     e1, e2 = errs[nm]
                     floor = 1e-7 * amp_nm
-                    ok = e1 <= 6 * amp_nm * EPS[0] + floor and e2 <= e1 / 3 + floor
+                    ok = e1 <= 6 * amp_nm * EPS[0] + floor and (e2 <= e1 / 3 + floor or (e1 > 0.1 and e2 <= e1 / 1.5))
                     d_.case(key + (nm,), bool(ok), dict(info, stat=nm, err_eps1=e1, err_eps2=e2, want=want[nm], amp=amp_nm), True, nm + '-vs-closed-form-one-sided')
                 else:
                     _order2(d_, key + (nm,), errs[nm], amp_nm, dict(info, stat=nm, want=want[nm]), nm + '-vs-closed-form')
@@ -499,9 +521,9 @@ def drv_tests(tier, nmodels):
 
 
 def drv_cache(tier, nseq):
-    d_ = Driver('C19', 'cache-history', bound='%d call sequences (6-14 calls) of FIM_uncert/GIM_uncert/LRT_adjust/Wald_stat/score_stat sharing Godambe.cache, over 2-3 '
+    d_ = _det(Driver('C19', 'cache-history', bound='%d call sequences (6-14 calls) of FIM_uncert/GIM_uncert/LRT_adjust/Wald_stat/score_stat sharing Godambe.cache, over 2-3 '
                 'different linear Poisson models (dyadic bases) and 2 parameter sets that agree on the nested parameters / give the same theta-hat, same ns and pts; '
-                'each result compared (rel 1e-9) with the same call made right after Godambe.cache.clear()' % nseq)
+                'each result compared (rel 1e-9) with the same call made right after Godambe.cache.clear()' % nseq))
     import numpy as np
     import gc
     import dadi
@@ -521,7 +543,8 @@ def drv_cache(tier, nseq):
         lins = [lin]
         for _ in range(2):
             other = Lin(dadi, np, rng, k, n, dyadic=True)
-            other.B = lin.B[:, np.array(rng.sample(range(n - 1), n - 1))].copy()
+            perm = np.array(rng.sample(range(n - 1), n - 1))
+            other.B, other.B0 = lin.B[:, perm].copy(), lin.B0[perm].copy()
             lins.append(other)
         nested = [rng.randrange(k)]
         p_alt = p0.copy()
@@ -533,7 +556,7 @@ def drv_cache(tier, nseq):
             which = rng.choice(['FIM', 'GIM', 'LRT', 'Wald', 'score'])
             calls.append((which, rng.randrange(len(lins)), rng.random() < 0.5, rng.random() < 0.5))
         info = dict(k=k, p0=p0.tolist(), p_alt=p_alt.tolist(), nested=nested, calls=[list(map(str, c)) for c in calls], data=d.tolist(),
-                    B=[l.B.tolist() for l in lins])
+                    B=[l.B.tolist() for l in lins], B0=[l.B0.tolist() for l in lins])
 
         def do(which, li, alt, multinom):
             L = lins[li]
